@@ -267,7 +267,8 @@ class CFG:
     def nodes_of(self, astnode):
         return list(self.index().get(id(astnode), []))
 
-    def reachable_from(self, start, avoid=(), skip_labels=()):
+    def reachable_from(self, start, avoid=(), skip_labels=(),
+                       skip_edges=()):
         avoid = set(avoid)
         seen = set()
         stack = list(start) if isinstance(start, (list, set, tuple)) \
@@ -278,10 +279,17 @@ class CFG:
                 continue
             seen.add(n)
             for (m, label) in n.succ:
-                if label in skip_labels:
+                if label in skip_labels or (n, label) in skip_edges:
                     continue
                 stack.append(m)
         return seen
+
+    def edge_dominates(self, test, label, node):
+        """Every path entry -> node takes the edge (test, label)."""
+        if node not in self.reachable():
+            return True
+        return node not in self.reachable_from(
+            self.entry, skip_edges={(test, label)})
 
     def reachable(self):
         return self.reachable_from(self.entry)
